@@ -200,7 +200,8 @@ impl Check for C03Static {
         let Some(Ok(_)) = &a.out else { return Outcome::skip("output unparsable (C08)") };
         match a.erased.as_ref().unwrap() {
             Err(e) => {
-                if owner_of(&e.sig) == "C03" {
+                // a temporary overwritten while a hook still has to read it delivers a wrong operand: C06's finding is C03's too
+                if owner_of(&e.sig) == "C03" || e.sig == "temp-clobbered" {
                     Outcome::fail(e.sig.clone(), e.detail.clone())
                 } else {
                     Outcome::skip(format!("blocked by {} ({})", e.sig, owner_of(&e.sig)))
